@@ -8,6 +8,7 @@ import Flowjaxv.Proofs.PlanarMass
 import Flowjaxv.Proofs.BnafMass
 import Flowjaxv.Proofs.PermMass
 import Flowjaxv.Proofs.FlowLayers
+import Flowjaxv.Proofs.NetMassMeas
 /-!
 # C04 — exp(log_prob) integrates to one, and samples are distributed according to that density
 
@@ -39,9 +40,14 @@ condition: 8 affine Coupling, 9 MaskedAutoregressive with the affine transformer
 Permute, condition-dependent Planar, and any depth / any mixture of all of these (`flowNd_architecture_stack_normalised`,
 `…_chain_normalised`, `…_stack_sample_law`), each with a concrete instance over `StandardNormal((2,))`.
 
-PARTIAL with respect to the informal property: PRNG statistics and rounding are outside; conditioner networks with the default
-`relu` activation are differentiable only off finitely many hyperplane preimages (a null set) — the theorems ask for a
-differentiable activation; spline transformers inside Coupling / MAF are covered in one dimension only; where the library inverts
+13 (`MeasurableLayers`) Coupling and MaskedAutoregressive layers from JOINT MEASURABILITY ONLY (Tonelli, one coordinate at a time,
+`Proofs/MassShear.lean`, `MassAR.lean`, `NetMassMeas.lean`): the default `relu` conditioners (any continuous activation) and any
+scalar transformer family that is lawful on ℝ with the one-dimensional layer fact — no differentiability in the conditioning
+coordinates is needed.
+
+PARTIAL with respect to the informal property: PRNG statistics and rounding are outside; for the rational-quadratic-spline
+transformer inside Coupling / MAF in d > 1 the joint measurability of (parameters, point) ↦ spline value is a hypothesis
+(`NetMass.CouplingMeas` / `MafMeas`), every other hypothesis is discharged (`spline_family_facts`); where the library inverts
 numerically (BNAF) or not at all (Planar tanh) the sampler law is stated for the exact inverse; Planar's `w = 0` is excluded (the
 code returns NaN there).
 -/
@@ -864,6 +870,151 @@ end ArchNd
 /-! ## ===== END 12. ===== -/
 
 /-! ### Planar layers: the invertibility constraint that normalisation rests on -/
+
+/-! ## ===== BEGIN 13. Coupling / MaskedAutoregressive layers from joint measurability only =====
+
+Sections 8–9 ask the conditioner network to be DIFFERENTIABLE, which excludes the library's default activation `relu`.
+For these two architectures differentiability in the conditioning coordinates is not needed at all: with the earlier coordinates
+fixed, each transformed coordinate is a ONE-dimensional bijection, and Tonelli's theorem reduces the `n`-dimensional
+change of variables to the one-dimensional one (`MassShear.prod_shear`, `coord_shear`, `ar_wpres`).  What is needed is joint
+measurability of (point, own coordinate) ↦ scalar transformer of the point's parameter row — true for every CONTINUOUS conditioner.
+`NetMass.LayerOK b c` is the pair of layer facts (`Mass.MassOK`, `Mass.LawOK`) every stack theorem consumes. -/
+section MeasurableLayers
+open Masks MasksPf
+
+/-- **every autoregressive layer** (Tonelli, one coordinate at a time): a lawful bijection `b` of `ℝⁿ` whose forward map is
+`x ↦ (g i x (x i))ᵢ`, where the scalar maps `g i x`, their inverses `h i x` and inverse log-dets `l i x` look at the coordinates of
+`x` BELOW `i` only, are jointly measurable, and each fibre satisfies the one-dimensional weighted push-forward identity;
+the reported inverse log-det is `Σᵢ l i x (y i)` at the preimage `x`.  Then total mass is preserved for EVERY integrand and the
+sampler's law has the reported density for EVERY base density. -/
+theorem autoregressive_layer {n : ℕ} {C : Type} (b : Bij (Fin n → ℝ) C ℝ) (c : C) (hL : b.Lawful univ univ)
+    (g h l : Fin n → (Fin n → ℝ) → ℝ → ℝ)
+    (hloc_h : ∀ i w w', MassShear.AgreeBelow (i : Fin n).val w w' → h i w = h i w')
+    (hloc_l : ∀ i w w', MassShear.AgreeBelow (i : Fin n).val w w' → l i w = l i w')
+    (hg : ∀ i, Measurable fun p : (Fin n → ℝ) × ℝ => g i p.1 p.2)
+    (hh : ∀ i, Measurable fun p : (Fin n → ℝ) × ℝ => h i p.1 p.2)
+    (hl : ∀ i, Measurable fun p : (Fin n → ℝ) × ℝ => l i p.1 p.2)
+    (hgh : ∀ i w t, g i w (h i w t) = t)
+    (hfib : ∀ i w, Measure.map (h i w)
+      ((volume : Measure ℝ).withDensity fun t => ENNReal.ofReal (Real.exp (l i w t))) = volume)
+    (hfwd : ∀ x, b.fwd x c = fun i => g i x (x i))
+    (hld : ∀ y, (b.invLd y c).2 = ∑ i, l i (b.inv y c) (y i)) :
+    NetMass.LayerOK b c :=
+  Mass.ar_layer b c hL g h l hloc_h hloc_l hg hh hl hgh hfib hfwd hld
+
+/-- the one-dimensional layer fact is exactly the fibre hypothesis -/
+theorem fibre_of_scalar_layer (τ : Bij ℝ Unit ℝ) (hL : τ.Lawful univ univ) (h : Mass.LawOK volume τ ())
+    (him : Measurable fun y => τ.inv y ()) :
+    Measure.map (fun y => τ.inv y ())
+      ((volume : Measure ℝ).withDensity fun t => ENNReal.ofReal (Real.exp (τ.invLd t ()).2)) = volume :=
+  Mass.fibre_of_lawOK τ hL h him
+
+/-- **Coupling, any conditioner FUNCTION and any scalar transformer family** (lawful on ℝ, log-det antisymmetric, one-dimensional
+layer fact), every `d ≤ n`, every condition, BOTH orientations; the only analytic hypothesis is joint measurability -/
+theorem coupling_layer_measurable (d n : ℕ) (hdn : d ≤ n) (cnd : List ℝ → List ℝ) (tf : List ℝ → Bij ℝ Unit ℝ)
+    (htf : ∀ ps, (tf ps).Lawful univ univ) (hanti : ∀ ps, (tf ps).LdAntisym univ)
+    (h1 : ∀ ps, Mass.LawOK volume (tf ps) ()) (c : List ℝ) (hm : NetMass.CouplingMeas d n cnd tf c) :
+    NetMass.LayerOK (NetMass.liftBij n (couplingBij d cnd tf)) c ∧
+    NetMass.LayerOK (Gen.Invert.mk (NetMass.liftBij n (couplingBij d cnd tf))).toBij c :=
+  NetMass.coupling_layer_meas d n cnd tf hdn htf hanti h1 c hm
+
+/-- **MaskedAutoregressive, any well-shaped masked network (any activation) and any scalar transformer family**, every
+condition, both orientations -/
+theorem maf_layer_measurable (N : MafNet ℝ) (hN : N.WellShaped) (tf : List ℝ → Bij ℝ Unit ℝ)
+    (htf : ∀ ps, (tf ps).Lawful univ univ) (hanti : ∀ ps, (tf ps).LdAntisym univ)
+    (h1 : ∀ ps, Mass.LawOK volume (tf ps) ()) (c : List ℝ) (hm : NetMass.MafMeas N tf c) :
+    NetMass.LayerOK (NetMass.liftBij N.dim (mafBij N tf)) c ∧
+    NetMass.LayerOK (Gen.Invert.mk (NetMass.liftBij N.dim (mafBij N tf))).toBij c :=
+  NetMass.maf_layer_meas N tf hN htf hanti h1 c hm
+
+/-- **the DEFAULT coupling layer**: generated `Affine` transformer with `loc = ps[0] + a`, `scale = softplus(ps[1] + b)`, conditioner
+= a multilayer perceptron of any depth and shapes with the `relu` activation (output length `(n − d)·np`) — hypotheses all
+discharged, both orientations, every condition -/
+theorem coupling_relu_layer (d n np : ℕ) (hdn : d ≤ n) (Ls : List (MaskedLinear ℝ)) (a b₀ : ℝ) (c : List ℝ)
+    (hlen : ∀ z, (mlpForward (fun z : ℝ => max z 0) Ls z).length = (n - d) * np) :
+    NetMass.LayerOK (NetMass.liftBij n (couplingBij d (mlpForward (fun z : ℝ => max z 0) Ls)
+      (NetLogDet.affineFamily (fun ps => nth ps 0 + a) (fun ps => (Transc.softplus (nth ps 1 + b₀) : ℝ))))) c ∧
+    NetMass.LayerOK (Gen.Invert.mk (NetMass.liftBij n (couplingBij d (mlpForward (fun z : ℝ => max z 0) Ls)
+      (NetLogDet.affineFamily (fun ps => nth ps 0 + a) (fun ps => (Transc.softplus (nth ps 1 + b₀) : ℝ)))))).toBij c :=
+  NetMass.coupling_affine_layer_meas d n np _ _ _ hdn c
+    (NetMass.mlp_conditioner_contC d n _ NetMass.relu_continuous Ls c) hlen
+    (NetMass.rowMeas_nth_add 0 a) (NetMass.rowMeas_softplus 1 b₀) (fun ps => (MasksPf.softplus_pos _).ne')
+
+/-- **the DEFAULT masked autoregressive layer**: every well-shaped masked network whose activation is continuous (`relu`
+included), affine transformer with the constructor's parameterisation, both orientations, every condition -/
+theorem maf_continuous_layer (N : MafNet ℝ) (hN : N.WellShaped) (hact : Continuous N.act) (a b₀ : ℝ) (c : List ℝ) :
+    NetMass.LayerOK (NetMass.liftBij N.dim (mafBij N
+      (NetLogDet.affineFamily (fun ps => nth ps 0 + a) (fun ps => (Transc.softplus (nth ps 1 + b₀) : ℝ))))) c ∧
+    NetMass.LayerOK (Gen.Invert.mk (NetMass.liftBij N.dim (mafBij N
+      (NetLogDet.affineFamily (fun ps => nth ps 0 + a) (fun ps => (Transc.softplus (nth ps 1 + b₀) : ℝ)))))).toBij c :=
+  NetMass.maf_affine_layer_meas N _ _ hN hact (NetMass.rowMeas_nth_add 0 a) (NetMass.rowMeas_softplus 1 b₀)
+    (fun ps => (MasksPf.softplus_pos _).ne') c
+
+theorem relu_continuous : Continuous (fun z : ℝ => max z 0) := NetMass.relu_continuous
+
+/-- the three scalar hypotheses hold for EVERY well-formed rational-quadratic spline (so for a spline transformer inside
+Coupling / MAF only the joint measurability `CouplingMeas` / `MafMeas` remains a hypothesis) -/
+theorem spline_family_facts {p : RationalQuadraticSpline ℝ} (h : Rqs.RqsWF p) :
+    (p.toBij : Bij ℝ Unit ℝ).Lawful univ univ ∧ (p.toBij : Bij ℝ Unit ℝ).LdAntisym univ ∧
+    Mass.LawOK volume (p.toBij : Bij ℝ Unit ℝ) () :=
+  ⟨Rqs.rqs_lawful h, Rqs.rqs_ldAntisym h, (Mass.rqs_fwdJac h ()).lawOK⟩
+
+/-- every layer of sections 8–12 (`FlowLayers.IsFlowLayer`) supplies the two layer facts -/
+theorem layerOK_of_isFlowLayer {n : ℕ} {b : Bij (Fin n → ℝ) (List ℝ) ℝ} (h : FlowLayers.IsFlowLayer n b) (c : List ℝ) :
+    NetMass.LayerOK b c :=
+  (h.layer c).elim (fun h => ⟨h.massOK volume, h.lawOK volume⟩) (fun h => ⟨h.massOK volume, h.lawOK volume⟩)
+
+/-- **any depth, any mixture of layers that supply the two layer facts** — in particular default (`relu`) coupling / MAF layers
+mixed with permutations and the layers of sections 8–12: the flow is normalised -/
+theorem flowNd_layerOK_stack_normalised {K : Type} (n : ℕ) (base : Distn (Fin n → ℝ) (List ℝ) K ℝ) (c : List ℝ)
+    (bs : List (Bij (Fin n → ℝ) (List ℝ) ℝ)) (hall : ∀ b ∈ bs, NetMass.LayerOK b c)
+    (hbase : ∫ z, Real.exp (base.logProb z c) = 1) :
+    ∫ y, Real.exp ((nestTransformed base bs).logProb y c) = 1 := by
+  rw [Mass.nest_mass volume base c bs (fun b hb => (hall b hb).1), hbase]
+
+/-- … and `sample` has law `exp ∘ log_prob` -/
+theorem flowNd_layerOK_stack_sample_law {K : Type} [MeasurableSpace K] (κ : Measure K) (n : ℕ)
+    (base : Distn (Fin n → ℝ) (List ℝ) K ℝ) (c : List ℝ) (bs : List (Bij (Fin n → ℝ) (List ℝ) ℝ))
+    (hall : ∀ b ∈ bs, NetMass.LayerOK b c)
+    (hs : Measurable fun k => base.sample k c)
+    (hbase : Measure.map (fun k => base.sample k c) κ
+      = volume.withDensity fun z => ENNReal.ofReal (Real.exp (base.logProb z c))) :
+    Measure.map (fun k => (nestTransformed base bs).sample k c) κ
+      = volume.withDensity fun y => ENNReal.ofReal (Real.exp ((nestTransformed base bs).logProb y c)) :=
+  (Mass.nest_law volume κ base c bs (fun b hb => (hall b hb).2) hs hbase).2
+
+/-- non-vacuity (MAF): the example network of section 9 with its activation replaced by `relu` -/
+noncomputable def mafReluExample : MafNet ℝ := { NetMass.mafTanhExample with act := fun z => max z 0 }
+
+theorem mafReluExample_wellShaped : mafReluExample.WellShaped := NetMass.mafTanhExample_wellShaped
+
+/-- non-vacuity (Coupling): a `relu` perceptron `1 + 1 → 2 → 2` (first block of size 1, one conditioning variable, two
+parameters for the single transformed coordinate), weights of both signs -/
+noncomputable def couplingReluExample : List (MaskedLinear ℝ) :=
+  [⟨[[true, true], [true, true]], [[1, -2], [-1, 3]], [1, -1]⟩,
+   ⟨[[true, true], [true, true]], [[2, 1], [-1, 3]], [0, 1]⟩]
+
+theorem couplingReluExample_length (z : List ℝ) :
+    (mlpForward (fun z : ℝ => max z 0) couplingReluExample z).length = (2 - 1) * 2 := by
+  simp [couplingReluExample, mlpForward, MaskedLinear.apply, linearApply, MaskedLinear.unwrapW, whereMask]
+
+/-- a complete DEFAULT-style flow: `StandardNormal((2,))` pushed through `Invert(MAF)` and a coupling layer, both with `relu`
+conditioner networks and the affine transformer in the constructor's parameterisation — integrates to one at EVERY condition -/
+theorem relu_flow_instance {K : Type} (smp : K → List ℝ → Fin 2 → ℝ) (c : List ℝ) :
+    ∫ y, Real.exp ((nestTransformed (Mass.stdNormalN 2 smp)
+      [(Gen.Invert.mk (NetMass.liftBij 2 (mafBij mafReluExample
+          (NetLogDet.affineFamily (fun ps => nth ps 0 + 1 / 2) (fun ps => (Transc.softplus (nth ps 1 + -1) : ℝ)))))).toBij,
+       NetMass.liftBij 2 (couplingBij 1 (mlpForward (fun z : ℝ => max z 0) couplingReluExample)
+          (NetLogDet.affineFamily (fun ps => nth ps 0 + 0) (fun ps => (Transc.softplus (nth ps 1 + 1) : ℝ))))]).logProb y c) = 1 := by
+  refine flowNd_layerOK_stack_normalised 2 _ c _ ?_ (Mass.stdNormalN_normalised 2 smp c)
+  intro b hb
+  simp only [List.mem_cons, List.not_mem_nil, or_false] at hb
+  rcases hb with rfl | rfl
+  · exact (maf_continuous_layer mafReluExample mafReluExample_wellShaped relu_continuous (1 / 2) (-1) c).2
+  · exact (coupling_relu_layer 1 2 2 (by norm_num) couplingReluExample 0 1 c couplingReluExample_length).1
+
+end MeasurableLayers
+/-! ## ===== END 13. ===== -/
 
 /-- for every unconstrained `u`, non-zero `w` and leaky-relu slope `0 < s ≤ 1`, the generated planar layer
 (with the generated constraint `get_act_scale`) is a lawful bijection of ℝⁿ — the hypothesis `flowNd_normalised_of`
